@@ -479,6 +479,25 @@ func stRunScenario(sc stScenario, idx int64) *stRun {
 			}
 		}
 	}
+	// a late send after the call's context was cancelled: once created, every
+	// send reaches the underlying stream (it is the stream that reports the cancellation)
+	lateSendMsg := new(string)
+	*lateSendMsg = "late-send"
+	lateSendIssued := false
+	if sc.cancel == "after-creation" && rec.count("create.ok") == 1 && ctx.Err() != nil {
+		op := vStartOp(func() { _ = cs.SendMsg(lateSendMsg) })
+		if st := op.awaitDone(5 * time.Second); st != vDone {
+			h.fail("C12.blocked", "SendMsg(after-cancel)", "a SendMsg after the stream was created and the context was cancelled is blocked (%s)", st)
+			endAll()
+			return h
+		}
+		if op.panicked {
+			h.fail("C12.panic", vPanicKind(op.pval)+"@SendMsg(after-cancel)", "SendMsg after cancellation panicked: %v", op.pval)
+			endAll()
+			return h
+		}
+		lateSendIssued = true
+	}
 	endAll()
 
 	// ------------------------------------------------ offline check of the event log
@@ -486,6 +505,7 @@ func stRunScenario(sc stScenario, idx int64) *stRun {
 	var firstSend, lastSend interface{}
 	successSeq, createDoneSeq := -1, -1
 	var uSent, uRecv []interface{}
+	lateSendSeen := false
 	createOKs := 0
 	for _, e := range evs {
 		switch e.what {
@@ -536,6 +556,10 @@ func stRunScenario(sc stScenario, idx int64) *stRun {
 				createDoneSeq = e.seq
 			}
 		case "u.SendMsg":
+			if e.arg == interface{}(lateSendMsg) {
+				lateSendSeen = true
+				continue
+			}
 			uSent = append(uSent, e.arg)
 		case "u.RecvMsg":
 			uRecv = append(uRecv, e.arg)
@@ -561,6 +585,13 @@ func stRunScenario(sc stScenario, idx int64) *stRun {
 		h.hit("C12.first-send-error-no-second-stream")
 		if sendErrs[0] != io.EOF {
 			h.fail("C12.sends", "first-send-error", "the underlying stream's first SendMsg failed with io.EOF, the wrapper returned %v", sendErrs[0])
+			return h
+		}
+	}
+	if lateSendIssued {
+		h.hit("C12.late-send-after-cancel-reaches-stream")
+		if !lateSendSeen {
+			h.fail("C12.sends", "after-cancel", "a SendMsg issued after the stream was created and the call's context was cancelled did not reach the underlying stream")
 			return h
 		}
 	}
